@@ -123,6 +123,11 @@ func (c *ChainIndex[T]) UpdateLastAccepted(ctx context.Context, blk T) error {
 	}
 
 	deleteBlkID, err := c.GetBlockIDAtHeight(ctx, expiryHeight)
+	if err == database.ErrNotFound {
+		// The block at the expiry height was never stored (first accept after state sync,
+		// height gap or re-accepted block), so there is nothing to prune.
+		return batch.Write()
+	}
 	if err != nil {
 		return err
 	}
